@@ -156,8 +156,42 @@ def random_layout(rng, quick):
     return rows, cols, ov, encs, ags
 
 
+def shadow_cases(rng, n):
+    """Structured family for the visibility clause: an attacker with range R, one blocking agent at
+    a random offset inside its window, and targets on the cells at the far border of the window
+    (rows/columns at distance exactly R) and right behind the blocker."""
+    for _ in range(n):
+        R = rng.choice([1, 2, 2, 3, 3, 4])
+        rows, cols = rng.randint(R + 1, 2 * R + 2), rng.randint(R + 1, 2 * R + 2)
+        ar, ac = rng.randrange(rows), rng.randrange(cols)
+        cells = [(r, c) for r in range(rows) for c in range(cols) if (r, c) != (ar, ac)
+                 and abs(r - ar) <= R and abs(c - ac) <= R]
+        if len(cells) < 2:
+            continue
+        br, bc = rng.choice(cells)
+        ags = [wagent(1, (ar, ac), HD, rng.choice([None, 3])), wagent(2, (br, bc), HD, None, 1)]
+        dr, dc = (br > ar) - (br < ar), (bc > ac) - (bc < ac)
+        behind = [(r, c) for (r, c) in cells if (r, c) != (br, bc)
+                  and (r - br) * dr >= 0 and (c - bc) * dc >= 0]
+        border = [(r, c) for (r, c) in behind if abs(r - ar) == R or abs(c - ac) == R]
+        pool = border * 3 + behind
+        for pos in rng.sample(pool, min(len(pool), rng.randint(1, 4))):
+            if all(tuple(a[1]) != pos for a in ags):
+                ags.append(wagent(3, pos, HD, None, 0))
+        kind = rng.choice([0, 0, 1, 2, 3])
+        present = sorted({a[0] for a in ags})
+        mapping = [[e, ([x for x in (2, 3) if x in present] if e == 1 else [])] for e in present]
+        sim = 3
+        params = [[R, HD // 2, HD, sim]] + [[1, HD, HD, 1] for _ in ags[1:]]
+        pts = action_space_points(kind, R, sim, [x for x in (2, 3) if x in present], rng, 12)
+        meta = [kind, mapping, rng.choice([0, 1]), params, rng.getrandbits(30)]
+        for p in pts:
+            yield [rows, cols, [], ags, [[0, p]], meta]
+
+
 def gen(tier, rng):
     quick = tier != "thorough"
+    yield from shadow_cases(rng, 120 if quick else 3000)
     n_layouts = 260 if quick else 6000
     cap = 40 if quick else 600
     for _ in range(n_layouts):
